@@ -39,6 +39,10 @@ EXPECT = {  # subject substring -> checks that should detect the reversal
     "no longer overflows for a chunk size": ["C03"],
     "without holding the time-outs lock": ["C15"],
     "without holding the queues lock": ["C15"],
+    "reads its descriptor before publishing": ["C15"],
+    "does not send a request on a connection that has been closed": ["C15"],
+    "pending request is installed and taken under a lock": ["C15"],
+    "Handler::Context is atomic": ["C09"],
 }
 
 
